@@ -213,10 +213,38 @@ func (g *Gen) call(x ssa.Value, cc *ssa.CallCommon, st *State) {
 	g.callInner(x, cc, st)
 }
 
+// localResult: an interface value this function obtained from a call (directly, through a
+// tuple extract or a phi of such): whether it is nil is this function's business to know.
+func localResult(v ssa.Value, depth int) bool {
+	if depth > 4 {
+		return false
+	}
+	switch x := v.(type) {
+	case *ssa.Call:
+		return true
+	case *ssa.Extract:
+		_, ok := x.Tuple.(*ssa.Call)
+		return ok
+	case *ssa.Phi:
+		for _, e := range x.Edges {
+			if localResult(e, depth+1) {
+				return true
+			}
+		}
+	}
+	return false
+}
+
 func (g *Gen) callInner(x ssa.Value, cc *ssa.CallCommon, st *State) {
 	var args []Val
 	if cc.IsInvoke() {
 		args = append(args, g.val(cc.Value))
+		if localResult(cc.Value, 0) && g.val(cc.Value).Sort == "Int" {
+			// calling a method on a nil interface value panics; for interface values that came
+			// out of a call in this function (info from os.Stat, an error) that is an obligation
+			// (interface-typed parameters and fields are assumed non-nil: standing assumption)
+			g.assert(st, "safe", "nilinvoke", not(eq(g.val(cc.Value).S, "0")), "method call on a nil interface value", cc.Pos())
+		}
 	}
 	for _, a := range cc.Args {
 		args = append(args, g.val(a))
